@@ -97,3 +97,54 @@ contract("FilteredResourceObserver.resource_created", source=M + "FilteredResour
          ensures=["implies(old(watched(self, resource)), select(told_created, resource))",
                   "implies(old(watched(self, parent_of(resource))), select(told_changed, parent_of(resource)))"],
          note="a watched resource that (re)appears is reported as created, its watched folder as changed")
+
+# ---- removal / move of a watched resource or of a folder holding watched resources ------------------------------------------------------
+specfun("is_folder_p", ["Resource"], "Bool")
+specfun("contains_p", ["Resource", "Resource"], "Bool", note="folder.contains(resource) (c11_contains.py)")
+record("Project", fields={})
+REG.records["Resource"].fields.update({"_path": "Str", "project": "Project"})
+specfun("res_at", ["Project", "Str"], "Resource", note="project.get_resource(path)")
+contract("Resource.path", source="rope.base.resources:Resource.path", is_property=True, inline=True, params={"self": "Resource"}, returns="Str")
+contract("Project.get_resource", abstract=True, pure=True, heap_independent=True, params={"self": "Project", "resource_name": "Str"}, returns="Resource",
+         ensures=["result == res_at(self, resource_name)"], note="resource lookup by project-relative path (may raise for a path that does not exist: outside this contract)")
+# where a file of a moved folder ends up: the new folder's path followed by the file's path below the old folder; nowhere when the folder was removed
+specdef("new_place", {"m": "Resource", "nm": "Opt[Resource]", "r": "Resource"}, "Opt[Resource]",
+        "ite(is_none(nm), None, Some(res_at(r.project, val(nm)._path + r._path[len(m._path):len(r._path)])))")
+contract("Resource.is_folder", abstract=True, pure=True, heap_independent=True, params={"self": "Resource"}, returns="Bool", ensures=["result == is_folder_p(self)"])
+contract("Resource.contains", abstract=True, pure=True, heap_independent=True, params={"self": "Resource", "resource": "Resource"}, returns="Bool",
+         ensures=["result == contains_p(self, resource)", "implies(result, len(self._path) <= len(resource._path))"],
+         note="Folder.contains is verified in c11_contains.py (containment is a statement about paths; what is contained has the longer path)")
+contract("FilteredResourceObserver._calculate_new_resource", source=M + "FilteredResourceObserver._calculate_new_resource",
+         params={"self": "FilteredResourceObserver", "main": "Resource", "new_main": "Opt[Resource]", "resource": "Resource"}, returns="Opt[Resource]",
+         requires=["len(main._path) <= len(resource._path)"], modifies=[], raises={},
+         ensures=["result == new_place(main, new_main, resource)"],
+         note="the file keeps its path below the folder (precondition: the file lies inside the folder, so its path is at least as long)")
+contract("FilteredResourceObserver._update_changes_caused_by_moved", source=M + "FilteredResourceObserver._update_changes_caused_by_moved",
+         params={"self": "FilteredResourceObserver", "changes": "_Changes", "resource": "Resource", "new_resource": "Opt[Resource]"}, defaults={"new_resource": "None"},
+         modifies=["changes.changes", "changes.creations", "changes.moves"], raises={},
+         ensures=[
+             # the resource itself, if watched, is recorded as moved to new_resource (removed when that is None) ...
+             "implies(watched(self, resource) and not (is_folder_p(resource) and contains_p(resource, resource)), select(changes.moves, resource) == Some(new_resource))",
+             # ... and so is every watched resource inside it when it is a folder
+             "forall(lambda x: implies(is_folder_p(resource) and watched(self, x) and contains_p(resource, x), "
+             "       select(changes.moves, x) == Some(new_place(resource, new_resource, x))), 'Resource')",
+             # nothing recorded before is dropped
+             "forall(lambda x: implies(not is_none(select(old(changes.moves), x)), not is_none(select(changes.moves, x))), 'Resource')",
+             "forall(lambda x: implies(select(old(changes.changes), x), select(changes.changes, x)), 'Resource')",
+             "implies(watched(self, parent_of(resource)), select(changes.changes, parent_of(resource)))"],
+         loops={1: {"index": "i", "inv": [
+             "forall(lambda k: implies(0 <= k and k < i and contains_p(resource, elem_at(k)), select(changes.moves, elem_at(k)) == Some(new_place(resource, new_resource, elem_at(k)))))",
+             "implies(watched(self, resource) and not contains_p(resource, resource), select(changes.moves, resource) == Some(new_resource))",
+             "forall(lambda x: implies(not is_none(select(old(changes.moves), x)), not is_none(select(changes.moves, x))), 'Resource')",
+             "changes.changes == old(changes.changes)"]}},
+         note="a removed or moved folder takes the watched resources inside it along")
+ALLMOD = ["self.resources", "told_changed", "told_removed", "told_created", "told_moved", "_Changes.changes[*]", "_Changes.creations[*]", "_Changes.moves[*]"]
+contract("FilteredResourceObserver.resource_removed", source=M + "FilteredResourceObserver.resource_removed", params={"self": "FilteredResourceObserver", "resource": "Resource"},
+         modifies=ALLMOD, raises={},
+         ensures=["implies(old(watched(self, resource)) and not (is_folder_p(resource) and contains_p(resource, resource)), select(told_removed, resource))",
+                  "forall(lambda x: implies(is_folder_p(resource) and old(watched(self, x)) and contains_p(resource, x), select(told_removed, x)), 'Resource')"],
+         note="removing a watched resource, or a folder with watched resources inside, is reported for each of them: the module cache drops them")
+contract("FilteredResourceObserver.resource_moved", source=M + "FilteredResourceObserver.resource_moved",
+         params={"self": "FilteredResourceObserver", "resource": "Resource", "new_resource": "Resource"}, modifies=ALLMOD, raises={},
+         ensures=["implies(old(watched(self, resource)) and not (is_folder_p(resource) and contains_p(resource, resource)), select(told_moved, resource) == Some(new_resource))"],
+         note="a watched resource that is moved is reported with its new place")
